@@ -19,6 +19,9 @@ structure MReq where
   op : Option Nat := .none
   idxs : List Nat := []
   outcome : Outcome := .none
+  /-- the metadata current when the request was issued: the dump before its step and (for what the step
+      itself merged before issuing) the dump after its step -/
+  cands : List Cache := []
   deriving Repr
 
 structure MOp where
@@ -60,6 +63,8 @@ structure MSt where
   excused : List Nat := []
   closed : Bool := false
   fails : List String := []
+  /-- full-strength rule the code is known to violate: routing by the metadata current at send time -/
+  staleFails : List String := []
   deriving Repr
 
 def fail (s : MSt) (why : String) : MSt := { s with fails := s.fails ++ [why] }
@@ -100,6 +105,16 @@ def answersAsked (keys : List TP) (r : MReq) : Bool :=
   let asked := r.idxs.filterMap (fun i => keys[i]?)
   let got := (itemsOf r.outcome).map (·.1)
   nodup got && got.all (fun k => asked.contains k) && asked.all (fun k => got.contains k)
+
+/-- STRICT routing: each payload went to the broker named by the metadata current when its request was issued
+    (`checkSend` accepts any metadata seen since the operation started: a leader resolved before a reload
+    that the same call triggered for a later payload is kept although the reload moved it) -/
+def checkStale (s : MSt) (op : MOp) : List String :=
+  let rs := s.reqs.filter (fun r => r.op == some op.o)
+  if rs.all (fun r => r.idxs.all (fun i => match op.keys[i]?, nodeOf s r.b with
+      | some key, some node => r.cands.any (fun c => responsible c key op.group == some node)
+      | _, _ => true)) then []
+  else ["a payload was sent to a broker that the metadata current at send time no longer named for it"]
 
 /-- checks at the completion of a send with `responses` / `FailedPayloadsError` -/
 def checkSend (s : MSt) (op : MOp) (tags : List Int) (failed : List Nat) : List String :=
@@ -158,7 +173,7 @@ def stepItem (cfg : Cfg) (s : MSt) : TItem → MSt
     match o with
     | .bcNew b node _ _ => { s with bcNode := s.bcNode ++ [(b, node)] }
     | .bcClose b => { s with bcClosed := s.bcClosed ++ [b] }
-    | .mk k b _ _ => { s with reqs := s.reqs ++ [{ k := k, b := b }] }
+    | .mk k b _ _ => { s with reqs := s.reqs ++ [{ k := k, b := b, cands := [s.lastDump] }] }
     | .fired k kd =>
       setReq s k (fun q => match q.outcome with
         | .none => { q with outcome := match kd with | .none => .ok [] | some _ => .failed }
@@ -189,12 +204,18 @@ def stepItem (cfg : Cfg) (s : MSt) : TItem → MSt
          | _ => s1)
     | _ => s
   | .dump c =>
+    let s : MSt := { s with reqs := s.reqs.map (fun (q : MReq) => if q.cands.length == 1 then { q with cands := q.cands ++ [c] } else q) }
     let s0 := { s with lastDump := c, ops := s.ops.map (fun (x : MOp) =>
       if x.done && !s.pendingChecks.any (fun (p : Nat × List Int × List Nat) => p.1 == x.o) then x else { x with hist := x.hist ++ [c] }) }
-    let s1 := { s0 with pendingChecks := [], fails := s0.fails ++ s0.pendingChecks.flatMap (fun (p : Nat × List Int × List Nat) =>
+    let newFails := s0.pendingChecks.flatMap (fun (p : Nat × List Int × List Nat) =>
       match (s0.ops.filter (fun (x : MOp) => x.o == p.1)).head? with
       | some x => checkSend s0 x p.2.1 p.2.2
-      | Option.none => []) }
+      | Option.none => [])
+    let newStale := s0.pendingChecks.flatMap (fun (p : Nat × List Int × List Nat) =>
+      match (s0.ops.filter (fun (x : MOp) => x.o == p.1)).head? with
+      | some x => if (checkSend s0 x p.2.1 p.2.2).isEmpty then checkStale s0 x else []
+      | Option.none => [])
+    let s1 := { s0 with pendingChecks := [], fails := s0.fails ++ newFails, staleFails := s0.staleFails ++ newStale }
     { s1 with uns := s1.uns.map (fun (x : MUn) => match x.known with | Option.none => { x with known := some (c.brokers.map (·.1)) } | some _ => x) }
   | .attr k o idxs => setReq s k (fun q => { q with op := some o, idxs := idxs })
   | .uop u o => { s with loadUn := s.loadUn ++ [(o, u)] }
@@ -229,5 +250,8 @@ def stepItem (cfg : Cfg) (s : MSt) : TItem → MSt
 def run (cfg : Cfg) (tr : List TItem) : MSt := tr.foldl (stepItem cfg) {}
 
 def ok (cfg : Cfg) (tr : List TItem) : Bool := (run cfg tr).fails.isEmpty
+
+/-- `ok` plus routing by the metadata current at SEND time (known finding: stale leader within one call) -/
+def okFull (cfg : Cfg) (tr : List TItem) : Bool := (run cfg tr).fails.isEmpty && (run cfg tr).staleFails.isEmpty
 
 end Afkak.Monitor.C07
